@@ -9,11 +9,14 @@ import (
 	"hash/fnv"
 	"math/rand"
 	"os"
+	"os/exec"
 	"runtime"
 	"sort"
 	"strings"
 	"sync"
 	"time"
+
+	obskprdb "github.com/shutter-network/rolling-shutter/rolling-shutter/chainobserver/db/keyper"
 
 	"verif/harness/core"
 	"verif/harness/ev"
@@ -175,6 +178,14 @@ func isCrash(o CObs) bool {
 // runC05 executes the deliveries, grouped per flavour, on `workers` node assemblies per flavour
 // group. measure = single-threaded allocation pass.
 func runC05(ctx context.Context, w *World, st *C05States, ds []delivery, workers int, measure bool) ([]c05Result, error) {
+	return runC05Mode(ctx, w, st, ds, workers, measure, false)
+}
+
+// runC05Mode: publishFails = delivery mode "send" (node assemblies on a P2PNode whose Publish fails).
+func runC05Mode(ctx context.Context, w *World, st *C05States, ds []delivery, workers int, measure bool, publishFails bool) ([]c05Result, error) {
+	if len(ds) == 0 {
+		return nil, nil
+	}
 	res := make([]c05Result, len(ds))
 	type job struct{ idx []int }
 	// group by (flavour, recv) so that a node keeps its state
@@ -234,7 +245,7 @@ func runC05(ctx context.Context, w *World, st *C05States, ds []delivery, workers
 				if n, ok := nodes[key]; ok {
 					return n, n.SetC05State(w, st, recv)
 				}
-				n, err := NewNode(ctx, w, fl)
+				n, err := NewNodeMode(ctx, w, fl, publishFails)
 				if err != nil {
 					return nil, err
 				}
@@ -389,8 +400,17 @@ func CheckC05(c *core.Ctx) int {
 			}
 		}
 	}
+	var sds, xds []delivery // delivery modes "send" and "stress"
 	for i := range g.Cases {
 		cs := &g.Cases[i]
+		switch cs.Mode {
+		case "send":
+			sds = append(sds, delivery{cs: cs})
+			continue
+		case "stress":
+			xds = append(xds, delivery{cs: cs})
+			continue
+		}
 		n := 1
 		if cs.Bytes != "none" {
 			n = reps
@@ -410,6 +430,31 @@ func CheckC05(c *core.Ctx) int {
 		return core.ExitInconclusive
 	}
 	replayS := time.Since(t0).Seconds()
+	// delivery mode "send": the real P2PMessaging.handle incl. SendMessage on a node whose Publish fails
+	tS := time.Now()
+	srs, err := runC05Mode(ctx, w, st, sds, 4, false, true)
+	if err != nil {
+		fmt.Println("INCONCLUSIVE:", err)
+		return core.ExitInconclusive
+	}
+	sendAccepted := 0
+	for _, r := range srs {
+		if r.obs.V == "accept" {
+			sendAccepted++
+		}
+	}
+	if len(sds) > 0 && sendAccepted == 0 {
+		fmt.Println("INCONCLUSIVE: no delivery of mode send was accepted (SendMessage is never reached)")
+		return core.ExitInconclusive
+	}
+	// delivery mode "stress": in a child process (Go's concurrent map access detection is fatal)
+	xrs, err := runStress(c, w, xds)
+	if err != nil {
+		fmt.Println("INCONCLUSIVE:", err)
+		return core.ExitInconclusive
+	}
+	c.Logf("mode send: %d deliveries through the real handle + SendMessage with failing Publish (%d accepted); mode stress: %d deliveries validated by 8 goroutines against the state feeder (%.1fs)",
+		len(sds), sendAccepted, len(xds), time.Since(tS).Seconds())
 	// allocation pass: single-threaded, nothing else running in this process
 	var ads []delivery
 	{
@@ -453,8 +498,8 @@ func CheckC05(c *core.Ctx) int {
 		}
 	}
 	selfTestCorruptC05(ds, rs)
-	all := append(append([]delivery{}, ds...), ads...)
-	allRes := append(append([]c05Result{}, rs...), ars...)
+	all := append(append(append(append([]delivery{}, ds...), ads...), sds...), xds...)
+	allRes := append(append(append(append([]c05Result{}, rs...), ars...), srs...), xrs...)
 	hist := map[string]int{}
 	accepted := 0
 	perFl := map[string]int{}
@@ -505,7 +550,7 @@ func CheckC05(c *core.Ctx) int {
 		if bySite[site] == 1 && reported < 8 {
 			data := w.c05Data(all[i])
 			path := c.WriteReplay(fmt.Sprintf("%d", reported), C05Replay{Prop: c.Prop, Seed: c.Seed, Case: all[i].cs.Raw, Rep: all[i].rep,
-				DataHex: hex.EncodeToString(data), Monitor: f.Monitor, Obs: allRes[i].obs, Detail: allRes[i].detail, Measure: i >= len(ds)})
+				DataHex: hex.EncodeToString(data), Monitor: f.Monitor, Obs: allRes[i].obs, Detail: allRes[i].detail, Measure: i >= len(ds) && i < len(ds)+len(ads)})
 			ob, _ := json.Marshal(allRes[i].obs)
 			c.Violation(path, fmt.Sprintf("monitor %s failed: case %s rep %d (%d bytes) observed %s: %s", f.Monitor, all[i].cs.Raw, all[i].rep, len(data), ob, allRes[i].detail))
 			reported++
@@ -618,7 +663,13 @@ func replayC05(c *core.Ctx) int {
 	w := NewWorld(rf.Seed)
 	st := NewC05States(w)
 	ds := []delivery{{cs: &cs, rep: rf.Rep, data: data}}
-	rs, err := runC05(context.Background(), w, st, ds, 1, rf.Measure)
+	var rs []c05Result
+	if cs.Mode == "stress" {
+		ds[0].data = nil
+		rs, err = runStress(c, w, ds)
+	} else {
+		rs, err = runC05Mode(context.Background(), w, st, ds, 1, rf.Measure, cs.Mode == "send")
+	}
 	if err != nil {
 		fmt.Println("INCONCLUSIVE:", err)
 		return core.ExitInconclusive
@@ -639,4 +690,194 @@ func replayC05(c *core.Ctx) int {
 	}
 	fmt.Println("not reproduced")
 	return core.ExitOK
+}
+
+// --- delivery mode "stress" -----------------------------------------------------------------
+
+const stressFor = 400 * time.Millisecond
+
+// StressChild runs in a child process (vgossipval __c05stress <seed>, cases as a JSON list on
+// stdin): every case is validated by 8 goroutines at once while a feeder updates the node's
+// state as chain sync does (access node: Storage.AddEonKey / AddKeyperSet with the values the
+// storage already holds), then once more sequentially. It prints START i / DONE i v h.
+func StressChild(seed int64) int {
+	var raws []json.RawMessage
+	if err := json.NewDecoder(os.Stdin).Decode(&raws); err != nil {
+		fmt.Println("ERR", err)
+		return 2
+	}
+	ctx := context.Background()
+	w := NewWorld(seed)
+	st := NewC05States(w)
+	for i, raw := range raws {
+		var cs CCase
+		if err := json.Unmarshal(raw, &cs); err != nil {
+			fmt.Println("ERR", err)
+			return 2
+		}
+		cs.Raw = raw
+		fmt.Printf("START %d\n", i)
+		n, err := NewNode(ctx, w, cs.Fl)
+		if err != nil {
+			fmt.Println("ERR", err)
+			return 2
+		}
+		if err := n.SetC05State(w, st, cs.Recv); err != nil {
+			fmt.Println("ERR", err)
+			return 2
+		}
+		d := delivery{cs: &cs}
+		data := w.c05Data(d)
+		dl := Delivery{RegTopic: TopicName(cs.Topic), Topic: TopicName(cs.Topic), Data: data}
+		val := n.Msg.VerifGossipvalCombinedValidator(dl.RegTopic)
+		stop := make(chan struct{})
+		var wg sync.WaitGroup
+		var mu sync.Mutex
+		panicked := ""
+		guard := func(f func()) {
+			defer wg.Done()
+			defer func() {
+				if p := recover(); p != nil {
+					mu.Lock()
+					panicked = fmt.Sprint(p)
+					mu.Unlock()
+				}
+			}()
+			f()
+		}
+		if n.Storage != nil {
+			wg.Add(1)
+			go guard(func() {
+				for { // new eon keys arriving (chain sync: EonKeyBroadcast events)
+					select {
+					case <-stop:
+						return
+					default:
+					}
+					n.Storage.AddEonKey(c05Eon, w.Keys.EonPublicKey())
+				}
+			})
+			wg.Add(1)
+			go guard(func() { // new keyper sets arriving (chain sync: KeyperSetAdded events)
+				set := &obskprdb.KeyperSet{KeyperConfigIndex: c05Eon, ActivationBlockNumber: c05Activ, Keypers: keyperList(w.Members), Threshold: Threshold}
+				for {
+					select {
+					case <-stop:
+						return
+					case <-time.After(time.Millisecond):
+					}
+					n.Storage.AddKeyperSet(c05Eon, set)
+				}
+			})
+		}
+		for g := 0; g < 8; g++ {
+			wg.Add(1)
+			go guard(func() {
+				for {
+					select {
+					case <-stop:
+						return
+					default:
+					}
+					val(ctx, "verif-forwarding-peer", dl.PubsubMessage())
+				}
+			})
+		}
+		time.Sleep(stressFor)
+		close(stop)
+		wg.Wait()
+		r := deliverC05(ctx, w, n, d, false)
+		if panicked != "" {
+			r.obs.V = "panic"
+		}
+		fmt.Printf("DONE %d %s %s\n", i, r.obs.V, r.obs.H)
+		n.Close()
+	}
+	return 0
+}
+
+// runStress executes the stress deliveries in child processes; a child that dies while a case is
+// running makes that case's outcome "panic".
+func runStress(c *core.Ctx, w *World, xds []delivery) ([]c05Result, error) {
+	res := make([]c05Result, len(xds))
+	done := make([]bool, len(xds))
+	for attempt := 0; attempt <= len(xds); attempt++ {
+		var idx []int
+		var raws []json.RawMessage
+		for i := range xds {
+			if !done[i] {
+				idx = append(idx, i)
+				raws = append(raws, xds[i].cs.Raw)
+			}
+		}
+		if len(idx) == 0 {
+			return res, nil
+		}
+		in, _ := json.Marshal(raws)
+		ctx, cancel := context.WithTimeout(context.Background(), 90*time.Second)
+		cmd := exec.CommandContext(ctx, os.Args[0], "__c05stress", fmt.Sprint(w.Seed))
+		cmd.Stdin = bytes.NewReader(in)
+		var out, errb bytes.Buffer
+		cmd.Stdout, cmd.Stderr = &out, &errb
+		runErr := cmd.Run()
+		timedOut := ctx.Err() == context.DeadlineExceeded
+		cancel()
+		started := -1
+		for _, l := range strings.Split(out.String(), "\n") {
+			f := strings.Fields(l)
+			switch {
+			case len(f) == 2 && f[0] == "START":
+				fmt.Sscan(f[1], &started)
+			case len(f) == 4 && f[0] == "DONE":
+				var k int
+				fmt.Sscan(f[1], &k)
+				i := idx[k]
+				res[i] = c05Result{obs: CObs{V: f[2], H: f[3], Len: len(w.c05Data(xds[i]))}}
+				done[i] = true
+				started = -1
+			case len(f) >= 1 && f[0] == "ERR":
+				return nil, fmt.Errorf("stress child: %s", l)
+			}
+		}
+		if runErr == nil {
+			continue
+		}
+		if started < 0 {
+			return nil, fmt.Errorf("stress child failed outside a case: %v\n%s", runErr, tailOf(errb.String(), 10))
+		}
+		i := idx[started]
+		v := "panic"
+		if timedOut {
+			v = "timeout"
+		}
+		res[i] = c05Result{obs: CObs{V: v, H: "none", Len: len(w.c05Data(xds[i]))}, detail: "child process died: " + fatalLine(errb.String())}
+		done[i] = true
+	}
+	return res, nil
+}
+
+func tailOf(s string, n int) string {
+	l := strings.Split(strings.TrimSpace(s), "\n")
+	if len(l) > n {
+		l = l[len(l)-n:]
+	}
+	return strings.Join(l, "\n")
+}
+
+func fatalLine(stderr string) string {
+	for _, l := range strings.Split(stderr, "\n") {
+		if strings.HasPrefix(l, "fatal error:") || strings.HasPrefix(l, "panic:") {
+			var frames []string
+			for _, m := range strings.Split(stderr, "\n") {
+				if strings.Contains(m, "rolling-shutter/rolling-shutter/") && strings.Contains(m, "(") && !strings.HasPrefix(strings.TrimSpace(m), "/") {
+					frames = append(frames, strings.TrimSpace(m))
+					if len(frames) == 3 {
+						break
+					}
+				}
+			}
+			return l + "\n" + strings.Join(frames, " | ")
+		}
+	}
+	return tailOf(stderr, 3)
 }
